@@ -11,9 +11,9 @@ from __future__ import annotations
 import ast
 from typing import Dict, List, Optional
 
-from ..astq import assignments_to, bind_args, call_name, occ
+from ..astq import assignments_to, bind_args, call_name, in_subtree, occ
 from ..logic import guards
-from ..model import AnalysisError, Func, const_value, NOCONST, is_self_attr, norm, walk_local
+from ..model import AnalysisError, Func, ancestors, const_value, NOCONST, is_self_attr, norm, walk_local
 from ..report import Ob, rule
 
 PATH_REQUIRED_HINT = ("TagQuery", "FieldQuery")
@@ -32,6 +32,20 @@ def _truth(e: ast.AST, consts: Dict[str, object], f: Func, want: bool, depth: in
         vals = [v for v in assignments_to(f, e.id)]
         if not vals or e.id in f.params():
             return False
+        if not want:
+            # an assignment that only executes under `if <this flag>:` cannot turn a false flag true: the flag is
+            # certainly false when every *other* assignment is (induction over the executions)
+            def under_own_test(v) -> bool:
+                child = v
+                for a_ in ancestors(v):
+                    if isinstance(a_, ast.If) and isinstance(a_.test, ast.Name) and a_.test.id == e.id \
+                            and any(child is s_ or in_subtree(child, s_) for s_ in a_.body):
+                        return True
+                    child = a_
+                return False
+            vals = [v for v in vals if not under_own_test(v)]
+            if not vals:
+                return False
         return all(not isinstance(v, ast.AugAssign) and _truth(v, consts, f, want, depth + 1) for v in vals)
     if isinstance(e, ast.UnaryOp) and isinstance(e.op, ast.Not):
         return _truth(e.operand, consts, f, not want, depth + 1)
